@@ -258,6 +258,12 @@ impl Calendar {
         resolved_fields: &ResolvedCalendarFields,
     ) -> TemporalResult<(Option<IcuEra>, i32, IcuMonthCode)> {
         let year = resolved_fields.era_year.year;
+        // No calendar year of a date within the ISO limits (±275760 and an epoch or lunar-year
+        // drift of a few thousand years) is anywhere near this bound; the calendrical library
+        // computes with `i32` and overflows far beyond it.
+        if !(-500_000..=500_000).contains(&year) {
+            return Err(TemporalError::range().with_message("year is not within the valid range."));
+        }
         let (era, year) = match &resolved_fields.era_year.era {
             Some(era) => (Some(IcuEra(era.0)), year),
             // The Japanese calendars of the calendrical library read a year without an era as
